@@ -359,6 +359,29 @@ func Realtime() {
 		r.Fail(map[string]string{"engine": "health", "step": "CloseDuringCheck"}, nil, "token checks continue after Server.Close() that arrived during a check")
 	}
 	r.Eval(true)
+	// a token that fails to close (an already invalid session) must not keep the checker alive
+	faketoken.Reset()
+	faketoken.For("t1").Set(func(s *faketoken.Script) { s.CloseFn = func() error { return errors.New("session handle invalid") } })
+	base3 := loopGoroutines()
+	srv3, err := server.New(cfg)
+	if err != nil {
+		panic(err)
+	}
+	waitLoopParked(3 * time.Second)
+	srv3.Close()
+	deadline = time.Now().Add(2500 * time.Millisecond)
+	for loopGoroutines() > base3 && time.Now().Before(deadline) {
+		time.Sleep(5 * time.Millisecond)
+	}
+	if loopGoroutines() > base3 {
+		r.Fail(map[string]string{"engine": "health", "step": "CloseWithTokenError"}, nil, "Server.Close() with a token whose Close fails: healthCheckLoop still running 2.5 s later")
+	}
+	pc = faketoken.CountCalls("Ping")
+	time.Sleep(1300 * time.Millisecond)
+	if faketoken.CountCalls("Ping") != pc {
+		r.Fail(map[string]string{"engine": "health", "step": "CloseWithTokenError"}, nil, "token checks continue after Server.Close() when a token failed to close")
+	}
+	r.Eval(true)
 	r.Extra["behaviours_read"] = 1
 	r.Emit()
 }
